@@ -12,16 +12,16 @@ from .core import Abort, Hang, Precondition, Violation, World, call, exc_class
 # faults: enabled fault kinds; hist: history checks at the end of a run
 FOCUS = {
     'C01': dict(roots=[(0, 1), (1, 1)], armed=['c01'], faults=['F-ORD', 'F-NOT', 'F-BULK'], hist=['sched'],
-                all_reps=True, derive=['slice', 'convert'], p_derive=[0.0, 0.0, 0.1]),
+                all_reps=True, derive=['slice', 'convert', 'nx:clear'], p_derive=[0.0, 0.05, 0.1]),
     'C02': dict(roots=[(0, 1), (1, 1), (0, 1), (1, 1), (0, 0), (1, 0)], armed=['c02'], faults=['F-ORD', 'F-BULK'],
                 hist=['c02-final'], derive=['slice', 'convert'], p_derive=[0.0, 0.1], p_node=[0.1, 0.2],
                 steps_cap=16),
     'C03': dict(roots=[(0, 1), (1, 1)], armed=['c03'], faults=['F-ORD'], hist=[], p_derive=[0.0, 0.1, 0.2], all_reps=True,
                 derive=['slice', 'convert', 'restart:snapshots', 'restart:interactions', 'restart:json']),
     'C04': dict(roots=[(0, 1), (1, 1)], armed=['c04'], faults=['F-ORD', 'F-BULK'], hist=['sched'],
-                all_reps=True, derive=['slice', 'convert'], p_derive=[0.0, 0.0, 0.1]),
+                all_reps=True, derive=['slice', 'convert', 'nx:clear'], p_derive=[0.0, 0.05, 0.1]),
     'C05': dict(roots=[(0, 1), (1, 1)], armed=['c05'], faults=['F-ORD'], hist=['sched'],
-                all_reps=True, derive=['slice', 'convert'], p_derive=[0.0, 0.0, 0.1]),
+                all_reps=True, derive=['slice', 'convert', 'nx:clear'], p_derive=[0.0, 0.05, 0.1]),
     'C06': dict(roots=[(0, 1), (1, 1)], armed=['c03', 'c04', 'c05', 'attrs'], scope='derived', faults=['F-ORD'],
                 hist=[], derive=['slice'], p_derive=[0.15, 0.3], p_node=[0.1, 0.2]),
     'C09': dict(roots=[(0, 1), (1, 1)], armed=[], faults=['F-ORD'], hist=[],
@@ -46,13 +46,14 @@ FOCUS = {
     'C19': dict(roots=[(0, 1), (1, 1), (0, 1), (1, 1), (0, 0), (1, 0)], armed=[], faults=['F-ORD', 'F-BULK'],
                 hist=['shadow'], derive=['nx:blocked', 'nx:blocked', 'nx:any', 'nx:any', 'nx:frozen', 'freeze'],
                 p_derive=[0.3, 0.5], p_node=[0.1, 0.2], level='fault_enumeration', steps_cap=24),
-    'C20': dict(roots=[(0, 1)], armed=[], faults=['F-ORD'], hist=[], small=True, selfloops=[0.0],
-                derive=['probe_conf', 'probe_conf', 'probe_conf', 'slice'], p_derive=[0.3, 0.5], p_node=[0.0, 0.1]),
+    'C20': dict(roots=[(0, 1)], armed=[], faults=['F-ORD'], hist=[], small=True, selfloops=[0.0], chains=True,
+                derive=['probe_conf', 'probe_conf', 'probe_conf', 'slice'], p_derive=[0.25, 0.4], p_node=[0.0, 0.1]),
     'C16': dict(roots=[(0, 1), (1, 1)], armed=['c03', 'c04', 'c05', 'attrs'], scope='derived', faults=['F-ORD'],
                 hist=[], derive=['convert', 'alias'], p_derive=[0.15, 0.3], p_node=[0.1, 0.25]),
     'C07': dict(roots=[(0, 1), (1, 1), (0, 0), (1, 0)], armed=['c07'], level='fault_enumeration', variants=True,
                 faults=['F-ORD', 'F-NOT', 'F-BULK', 'F-ITER'], hist=['shadow'], p_fault=[0.2, 0.3, 0.4]),
-    'C08': dict(roots=[(0, 0), (1, 0)], armed=['c08'], faults=['F-ORD', 'F-BULK'], hist=['sched']),
+    'C08': dict(roots=[(0, 0), (1, 0)], armed=['c08'], faults=['F-ORD', 'F-BULK'], hist=['sched'],
+                derive=['nx:clear'], p_derive=[0.0, 0.05, 0.1]),
 }
 
 
@@ -212,7 +213,9 @@ def execute_owned(world, rep, op, kind):
         world.accepted_ops.append({'op': 'bulk', 'g': op['g'], 'kind': 'from', 'items': [list(x) for x in es],
                                    't': op['t'], 'e': op.get('e'), 'container': 'list'})
     world.rec({'op': op, 'out': out['out'], 'cls': out['cls']})
-    if not world.quiet:
+    world.step += 1
+    sparse_skip = world.check_every > 1 and world.step % world.check_every != 0 and out.get('new') is None
+    if not world.quiet and not sparse_skip:
         if out.get('new') is not None:
             step_checks(world, world.reps[out['new']], op, out)
         else:
@@ -271,6 +274,8 @@ def check_replica(world, rep, op):
     lo, hi = op_window(world, rep, op)
     armed = world.armed
     focus = world.focus
+    if world.poke:
+        oracles.poke_observers(rep.g, lo, hi)
     # C01 agreement is the base of every other oracle: violation under C01/C08, precondition elsewhere
     bad = oracles.presence_mismatch(rep, lo, hi)
     if bad:
@@ -316,9 +321,38 @@ def check_replica(world, rep, op):
 def gen_step(world, rng, cfg):
     """choose the next operation from the models' point of view"""
     spec = FOCUS[world.focus]
+    if world.pending:
+        return world.pending.pop(0)
     rep_i = rng.randrange(len(world.reps))
     rep = world.reps[rep_i]
     rep_i = world.rid_of(rep_i)
+    if spec.get('small') and rep.m.removal and rng.random() < 0.12:
+        # temporal walk motif: point interactions along a walk of nodes at increasing instants, possibly
+        # returning to its first node, with an instant in between at which only another pair interacts
+        nodes = cfg['nodes']
+        ids = rep.m.instants()
+        t = (ids[-1] + 1) if ids and rng.random() < 0.5 else cfg['origin'] + rng.randint(0, 2)
+        walk = [rng.choice(nodes)]
+        for _ in range(rng.randint(2, 4)):
+            walk.append(rng.choice([n for n in nodes if n != walk[-1]] or nodes))
+        if rng.random() < 0.5 and len(walk) > 2:
+            walk.append(walk[0])
+        ops_ = []
+        for a, b in zip(walk[:-1], walk[1:]):
+            ops_.append({'op': 'add', 'g': rep_i, 'u': a, 'v': b, 't': t, 'e': None, 'sp': 'pos'})
+            t += 1
+            if rng.random() < 0.3:
+                others = [n for n in nodes if n not in (a, b)]
+                if len(others) >= 2:
+                    x, y = rng.sample(others, 2)
+                    ops_.append({'op': 'add', 'g': rep_i, 'u': x, 'v': y, 't': t, 'e': None, 'sp': 'pos'})
+                    t += 1
+        ok = []
+        for o in ops_:          # keep only the calls the documented rule accepts in this state (model decides)
+            ok.append(o)
+        world.pending = ok[1:]
+        world.count('gen.walk-motif')
+        return ok[0]
     x = rng.random()
     fault = None
     if x < cfg['p_fault']:
@@ -332,7 +366,7 @@ def gen_step(world, rng, cfg):
         a = (ids[-1] + 2) if ids else cfg['origin']
         return {'op': 'add', 'g': rep_i, 'u': u, 'v': v, 't': a, 'e': a + rng.randint(515, 700), 'sp': 'pos'}
     derive = spec.get('derive')
-    if derive and rng.random() < cfg.get('p_derive', 0) and (rep.m.removal or world.focus == 'C19') and (rep.m.keys() or rng.random() < 0.1):
+    if derive and rng.random() < cfg.get('p_derive', 0) and (rep.m.removal or world.focus in ('C19', 'C08')) and (rep.m.keys() or rng.random() < 0.1):
         d = rng.choice(derive)
         if d == 'alias':
             op = gen.gen_mutate_attr(rng, rep, cfg)
@@ -504,6 +538,10 @@ def gen_roots(world, rng, cfg):
 # ---------------------------------------------------------------------------- whole runs
 def final_checks(world):
     spec = FOCUS[world.focus]
+    if world.check_every > 1:
+        # sparse runs: every replica is judged once more at the end
+        for rep in world.reps:
+            check_replica(world, rep, {'op': 'final'})
     if 'shadow' in spec['hist']:
         shadow_replay(world)
     if 'c02-final' in spec['hist']:
@@ -556,14 +594,23 @@ def run(focus, seed=None, ops_list=None, profile=None, keep_log=False):
         if ops_list is None:
             cfg = gen.swarm(rng, focus, (profile or {}).get('tier', 'quick'))
             if FOCUS[focus].get('small'):
-                cfg['nodes'] = cfg['nodes'][:rng.randint(2, 5)]
+                cfg['nodes'] = cfg['nodes'][:rng.randint(2, 6 if focus == 'C20' else 5)]
                 cfg['horizon'] = rng.randint(3, 6)
                 cfg['steps'] = min(cfg['steps'], 16)
                 cfg['origin'] = rng.choice([0, 0, -7, 10 ** 9])
+            if FOCUS[focus].get('chains') and rng.random() < 0.6:
+                # sparse, chain-like temporal structure (long minimum hop distances, holes between them)
+                cfg['p_span'] = 0.2
+                cfg['p_newpair'] = 0.6
+                cfg['steps'] = rng.randint(6, 18)
+                cfg['horizon'] = rng.randint(4, 7)
             if FOCUS[focus].get('small'):
                 cfg['p_selfloop'] = rng.choice([0.0, 0.0, 0.05])
             if 'selfloops' in FOCUS[focus]:
                 cfg['p_selfloop'] = rng.choice(FOCUS[focus]['selfloops'])
+            world.check_every = rng.choice([1, 1, 1, 1, 2, 5, 10 ** 6])     # frequent observation can mask stale caches
+            world.poke = rng.random() < 0.5
+            world.rec({'check_every': world.check_every, 'poke': world.poke})
             if FOCUS[focus].get('io_faults') and rng.random() < 0.04:
                 cfg['big'] = True
                 world.big = True
@@ -590,6 +637,8 @@ def run(focus, seed=None, ops_list=None, profile=None, keep_log=False):
                 executed.append(op)
                 outs.append(execute(world, op))
         else:
+            world.check_every = (profile or {}).get('check_every', 1)
+            world.poke = bool((profile or {}).get('poke', False))
             world.big = any(isinstance(o.get('e'), int) and isinstance(o.get('t'), int) and o['e'] - o['t'] > 200
                             for o in ops_list)
             for op in ops_list:
@@ -617,6 +666,7 @@ def run(focus, seed=None, ops_list=None, profile=None, keep_log=False):
         res.stats['simfs.fired.' + k] += v
     res.ops = executed
     res.outs = outs
+    res.profile = dict(profile or {}, check_every=world.check_every, poke=world.poke)
     res.stats = world.stats
     res.trans = world.trans
     res.evals = world.evals
